@@ -1,4 +1,215 @@
-// vworker: isolated worker process for C10/C12 (placeholder until those checks are wired).
+// vworker: isolated worker process used by C10 (and C12). It reads cases from stdin, runs every public entry point of
+// naga on them and reports per-stage status, CPU time and peak RSS. Before every API call it appends "BEGIN <case> <stage>"
+// to its log file so that a fatal runtime error (stack overflow, out of memory, ...) can be attributed exactly.
+//
+// protocol (stdin):  "<id> <nbytes>\n" followed by nbytes of source;  (stdout): one JSON line per case.
 package main
 
-func main() {}
+import (
+	"bufio"
+	"encoding/json"
+	"fmt"
+	"io"
+	"os"
+	"runtime/debug"
+	"strings"
+	"syscall"
+
+	"github.com/gogpu/naga"
+	"github.com/gogpu/naga/dxil"
+	"github.com/gogpu/naga/glsl"
+	"github.com/gogpu/naga/hlsl"
+	"github.com/gogpu/naga/ir"
+	"github.com/gogpu/naga/msl"
+	"github.com/gogpu/naga/spirv"
+	"github.com/gogpu/naga/wgsl"
+)
+
+type stageResult struct {
+	Stage  string `json:"stage"`
+	Status string `json:"status"` // ok | error | panic
+	Detail string `json:"detail,omitempty"`
+	Top    string `json:"top,omitempty"` // top naga frame of a panic
+	CPUms  int64  `json:"cpu_ms"`
+}
+
+type caseResult struct {
+	ID       string        `json:"id"`
+	Stages   []stageResult `json:"stages"`
+	MaxRSSKB int64         `json:"maxrss_kb"`
+	OutHash  string        `json:"out_hash,omitempty"`
+}
+
+func cpuMillis() int64 {
+	var ru syscall.Rusage
+	syscall.Getrusage(syscall.RUSAGE_SELF, &ru)
+	return (ru.Utime.Sec+ru.Stime.Sec)*1000 + int64(ru.Utime.Usec+ru.Stime.Usec)/1000
+}
+
+func maxRSSKB() int64 {
+	var ru syscall.Rusage
+	syscall.Getrusage(syscall.RUSAGE_SELF, &ru)
+	return ru.Maxrss
+}
+
+func topNagaFrame(stack string) string {
+	lines := strings.Split(stack, "\n")
+	seenPanic := false
+	for _, l := range lines {
+		if strings.HasPrefix(l, "panic(") {
+			seenPanic = true
+			continue
+		}
+		if seenPanic && strings.HasPrefix(l, "github.com/gogpu/naga") {
+			if i := strings.LastIndex(l, "("); i > 0 {
+				l = l[:i]
+			}
+			return l
+		}
+	}
+	for _, l := range lines {
+		if strings.HasPrefix(l, "github.com/gogpu/naga") {
+			if i := strings.LastIndex(l, "("); i > 0 {
+				l = l[:i]
+			}
+			return l
+		}
+	}
+	return "?"
+}
+
+var logf *os.File
+
+func stage(res *caseResult, id, name string, f func() error) (ok bool) {
+	if logf != nil {
+		fmt.Fprintf(logf, "BEGIN %s %s\n", id, name)
+	}
+	t0 := cpuMillis()
+	sr := stageResult{Stage: name, Status: "ok"}
+	func() {
+		defer func() {
+			if r := recover(); r != nil {
+				st := string(debug.Stack())
+				sr.Status = "panic"
+				sr.Detail = fmt.Sprint(r)
+				if len(sr.Detail) > 300 {
+					sr.Detail = sr.Detail[:300]
+				}
+				sr.Top = topNagaFrame(st)
+			}
+		}()
+		if err := f(); err != nil {
+			sr.Status = "error"
+			sr.Detail = err.Error()
+			if len(sr.Detail) > 200 {
+				sr.Detail = sr.Detail[:200]
+			}
+		}
+	}()
+	sr.CPUms = cpuMillis() - t0
+	res.Stages = append(res.Stages, sr)
+	return sr.Status == "ok"
+}
+
+func runCase(id, src string) caseResult {
+	res := caseResult{ID: id}
+	stage(&res, id, "tokenize", func() error {
+		_, err := wgsl.NewLexer(src).Tokenize()
+		return err
+	})
+	var mod *ir.Module
+	okParse := stage(&res, id, "parse+lower", func() error {
+		ast, err := naga.Parse(src)
+		if err != nil {
+			return err
+		}
+		mod, err = naga.LowerWithSource(ast, src)
+		return err
+	})
+	stage(&res, id, "compile-one-call", func() error { _, err := naga.Compile(src); return err })
+	if okParse && mod != nil {
+		stage(&res, id, "validate", func() error { _, err := naga.Validate(mod); return err })
+		stage(&res, id, "spirv-1.3", func() error { _, err := naga.GenerateSPIRV(mod, spirv.Options{Version: spirv.Version1_3}); return err })
+		stage(&res, id, "spirv-1.0-debug", func() error {
+			_, err := naga.GenerateSPIRV(mod, spirv.Options{Version: spirv.Version1_0, Debug: true, ForceLoopBounding: true})
+			return err
+		})
+		stage(&res, id, "hlsl", func() error { _, _, err := hlsl.Compile(mod, hlsl.DefaultOptions()); return err })
+		stage(&res, id, "hlsl-sm6-restrict", func() error {
+			o := hlsl.DefaultOptions()
+			o.ShaderModel = hlsl.ShaderModel6_0
+			o.RestrictIndexing = true
+			o.ZeroInitializeWorkgroupMemory = true
+			_, _, err := hlsl.Compile(mod, o)
+			return err
+		})
+		stage(&res, id, "msl", func() error { _, _, err := msl.Compile(mod, msl.DefaultOptions()); return err })
+		stage(&res, id, "msl-rzsw", func() error {
+			o := msl.DefaultOptions()
+			o.BoundsCheckPolicies = msl.BoundsCheckPolicies{Index: msl.BoundsCheckReadZeroSkipWrite, Buffer: msl.BoundsCheckReadZeroSkipWrite, Image: msl.BoundsCheckReadZeroSkipWrite}
+			o.ZeroInitializeWorkgroupMemory = true
+			_, _, err := msl.Compile(mod, o)
+			return err
+		})
+		for i, ep := range mod.EntryPoints {
+			if i >= 3 {
+				break
+			}
+			name := ep.Name
+			stage(&res, id, "glsl", func() error {
+				o := glsl.DefaultOptions()
+				o.LangVersion = glsl.Version{Major: 4, Minor: 50}
+				o.EntryPoint = name
+				_, _, err := glsl.Compile(mod, o)
+				return err
+			})
+			stage(&res, id, "glsl-es310", func() error {
+				o := glsl.DefaultOptions()
+				o.LangVersion = glsl.Version{Major: 3, Minor: 10, ES: true}
+				o.EntryPoint = name
+				_, _, err := glsl.Compile(mod, o)
+				return err
+			})
+		}
+		if len(mod.EntryPoints) > 0 {
+			stage(&res, id, "dxil", func() error { _, err := dxil.Compile(mod, dxil.DefaultOptions()); return err })
+		}
+		stage(&res, id, "process-overrides", func() error {
+			c := ir.CloneModuleForOverrides(mod)
+			return ir.ProcessOverrides(c, ir.PipelineConstants{"0": 3, "1": 1.5, "x": 7})
+		})
+		stage(&res, id, "compact-unused", func() error { ir.CompactUnused(mod); return nil })
+	}
+	res.MaxRSSKB = maxRSSKB()
+	return res
+}
+
+func main() {
+	if len(os.Args) > 1 {
+		f, err := os.OpenFile(os.Args[1], os.O_CREATE|os.O_WRONLY|os.O_APPEND, 0o644)
+		if err == nil {
+			logf = f
+		}
+	}
+	// address-space cap: a runaway allocation becomes a Go "out of memory" fatal instead of taking the machine down
+	lim := uint64(6 << 30)
+	syscall.Setrlimit(syscall.RLIMIT_AS, &syscall.Rlimit{Cur: lim, Max: lim})
+	in := bufio.NewReaderSize(os.Stdin, 1<<20)
+	out := bufio.NewWriter(os.Stdout)
+	for {
+		var id string
+		var n int
+		if _, err := fmt.Fscanf(in, "%s %d\n", &id, &n); err != nil {
+			return
+		}
+		buf := make([]byte, n)
+		if _, err := io.ReadFull(in, buf); err != nil {
+			return
+		}
+		res := runCase(id, string(buf))
+		b, _ := json.Marshal(res)
+		out.Write(b)
+		out.WriteByte('\n')
+		out.Flush()
+	}
+}
